@@ -19,7 +19,7 @@ def rule_builder_shape(ctx):
     f = fn.file
     w = ctx.where(f, fn.node)
     t = A.fn_text(fn)
-    tt = A.TList(tx(x) for x in T.templates_of(fn))
+    tt = A.TList(tx(x) for x in T.templates_both(fn))
     from . import fmtdec
 
     F = fmtdec.formatter_name(ctx, DEBUG)
